@@ -228,6 +228,7 @@ VARIANTS["C01"] = [
     ]),
     R("purge-loop-over-set-copy", HG, "        for node in self._edge[idx].copy():\n            self._node[node].remove(idx)\n        del self._edge[idx]\n        del self._edge_attr[idx]\n\n    def remove_edges_from", "        members = set(self._edge[idx])\n        del self._edge_attr[idx]\n        del self._edge[idx]\n        for node in members:\n            self._node[node].remove(idx)\n\n    def remove_edges_from"),
     R("weak-removal-discard", HG, "            for edge in edge_neighbors:\n                self._edge[edge].remove(n)\n", "            for edge in edge_neighbors:\n                self._edge[edge].discard(n)\n"),
+    M("add_edge-unguarded-node-creation", HG, "        for node in members:\n            if node not in self._node:\n                self._node[node] = set()\n                self._node_attr[node] = self._node_attr_dict_factory()\n            self._node[node].add(uid)\n            self._edge[uid].add(node)\n", "        for node in members:\n            self._node[node] = set()\n            self._node_attr[node] = self._node_attr_dict_factory()\n            self._node[node].add(uid)\n            self._edge[uid].add(node)\n", "R-INC", "Hypergraph.add_edge"),
 ]
 
 # --------------------------------------------------------------------------- C02
